@@ -15,7 +15,7 @@ model but excluded here by `fragD`; nested optional groups are not modelled.
 Hypotheses of the round-trip theorems, all explicit:
 * `wfD fmt K` — decidable well-formedness of the format against the classes `K` of the token that
   may follow the operation: the side conditions of the format compiler plus look-ahead conditions
-  it does not check (`okFollow`, `untaken-conflict`, `okTop`, `okShape`);
+  it does not check (`okFollow`, `untaken-conflict`, `okTop`);
 * `ValidD op fmt` — the instance has the cardinalities its directives' flavours promise ("verifies")
   and is consistent with the optional groups (`GroupCons`: what an untaken branch would have printed
   is empty / default — the op author's verifier obligation);
@@ -92,7 +92,7 @@ def exFmt : List Dir :=
   [ .s (.operand 0 .var), .s (.punct ":"), .s (.operandTy 0 .var),
     .group (.operand 1 .opt) (.kw "to") [.operand 1 .opt, .punct ":", .operandTy 1 .opt] [.kw "absent"],
     .group (.unitAttr "u" true 9) (.kw "fast") [.unitAttr "u" true 9] [],
-    .s (.kw "p"), .s (.attr "p" true false false (some 5)),
+    .s (.kw "p"), .s (.attr "p" true false (some 5)),
     .s (.attrDict false ["operandSegmentSizes"] []) ]
 
 def exDefs : Defs :=
@@ -146,7 +146,7 @@ example : CoversDicts exDefs exFmt exOp := by
       simp only [dictGet, exOp, if_true, AL.get] at hg
       by_cases h1 : "p" = n
       · subst h1
-        exact ⟨.attr "p" true false false (some 5), by simp [allS, exFmt], by decide⟩
+        exact ⟨.attr "p" true false (some 5), by simp [allS, exFmt], by decide⟩
       · by_cases h2 : "u" = n
         · subst h2
           exact ⟨.unitAttr "u" true 9, by simp [allS, exFmt], by decide⟩
@@ -165,12 +165,24 @@ example (hv : ValidD exOp exFmt) (hs : CoversSlots exDefs exFmt exOp) (hd : Cove
 
 /-! ## the side conditions are needed: formats the xDSL format compiler accepts but `wfD` rejects -/
 
-/-- **known finding (typed/unique-base optional attribute variable).**  `$p attr-dict` with `p` an
-optional property whose variable ignores `is_optional` when parsing (`optParse = false`): the absent
-property prints nothing and the parse fails.  `wfD` rejects the format (`okShape`). -/
-theorem typed_optional_counterexample :
-    let fmt : List Dir := [.s (.attr "p" true true false none), .s (.attrDict false [] [])]
-    wfD fmt [.punct "}"] = false ∧ roundtrip {} fmt {} [.punct "}"] = none := by decide
+/-- **repaired (optional attribute variable with a unique base / fixed type).**  `` `p` $p `z` attr-dict ``
+and `` `p` ($p^ `z`)? attr-dict-with-keyword `` with `p` an optional property without default: the absent property
+prints nothing and the parser reports absence, the present one is read back.  Before the repair
+`UniqueBase/TypedAttributeVariable.parse_attr` ignored `is_optional` (the model had a separate
+`optParse` flag, `wfD` rejected these formats through `okShape`, and the absent case was the
+counterexample `roundtrip = none`).  Now every attribute variable is parsed optionally exactly when
+it is optional, `wfD` accepts both formats and `decl_roundtrip` covers them. -/
+theorem typed_optional_roundtrip :
+    let top : List Dir := [.s (.kw "p"), .s (.attr "p" true true none), .s (.kw "z"), .s (.attrDict false [] [])]
+    let first : List Dir := [.s (.kw "p"), .group (.attr "p" true true none) (.attr "p" true true none) [.kw "z"] [],
+                             .s (.attrDict true [] [])]
+    let present : OpInst := { props := [("p", 3)] }
+    wfD top [.punct "}"] = true ∧ fragD top = true ∧
+    roundtrip {} top {} [.punct "}"] = some ({}, [.punct "}"]) ∧
+    roundtrip {} top present [.punct "}"] = some (present, [.punct "}"]) ∧
+    wfD first [.punct "}"] = true ∧ fragD first = true ∧
+    roundtrip {} first {} [.punct "}"] = some ({}, [.punct "}"]) ∧
+    roundtrip {} first present [.punct "}"] = some (present, [.punct "}"]) := by decide
 
 /-- a unit-attribute variable outside an optional group (accepted by the format compiler) always sets
 the attribute: the re-parsed operation differs.  `wfD` rejects it (`okTop`). -/
